@@ -141,6 +141,60 @@ func c20ExtraOps(h *History, g *G) []*Op {
 			out = append(out, &Op{Signer: h.W.Bot, Kind: "c20.execute_hairline", Msg: &tstypes.MsgExecuteOrders{Creator: h.W.Bot.Addr.String(), SpotOrderIds: hair}})
 		}
 	}
+	// A pool-priced market moves inside a block. When an order on such an asset is just inside its trigger, somebody
+	// joins the pricing pool single-sidedly with enough to push the market back out of it, and – in the same block, before
+	// or after that join – the bot asks for the order's execution. Executed after the join, the request must leave the
+	// order alone.
+	if table, ok := h.Ext["c20-market"].(map[string]c20Ref); ok && h.W.Scenario.PoolPricedElys && !g.Busy[h.W.Bot.Addr.String()] && g.Int("c20/moveexec?", 0, 1) == 0 {
+		for _, o := range s.SpotOrders {
+			ref, ok := table[o.OrderPrice.BaseDenom+"/"+o.OrderPrice.QuoteDenom]
+			if !ok || !ref.PoolPriced || len(ref.Cands) != 1 || !o.OrderPrice.Rate.IsPositive() || o.OrderPrice.QuoteDenom != ptypes.BaseCurrency {
+				continue
+			}
+			lte := o.OrderType != tstypes.SpotOrderType_LIMITSELL
+			if ref.verdict(o.OrderPrice.Rate, lte) != "true" {
+				continue
+			}
+			margin := ref.Cands[0].Sub(o.OrderPrice.Rate).Abs().Quo(o.OrderPrice.Rate)
+			if margin.GT(sdkmath.LegacyNewDecWithPrec(5, 2)) {
+				continue
+			}
+			var pool *ammtypes.Pool
+			for i := range s.Pools {
+				p := &s.Pools[i]
+				if !p.PoolParams.UseOracle && reserveOf(p, o.OrderPrice.BaseDenom).IsPositive() && reserveOf(p, ptypes.BaseCurrency).IsPositive() {
+					pool = p
+					break
+				}
+			}
+			var joiner *Account
+			for _, a := range h.W.Accounts[c20Owners:] {
+				if !g.Busy[a.Addr.String()] {
+					joiner = a
+				}
+			}
+			if pool == nil || joiner == nil {
+				break
+			}
+			// market <= rate holds: push the price up by adding base currency; market >= rate holds: push it down by adding the asset
+			denom := ptypes.BaseCurrency
+			if !lte {
+				denom = o.OrderPrice.BaseDenom
+			}
+			x := margin.MulInt64(3).Add(sdkmath.LegacyNewDecWithPrec(int64(g.Int("c20/movepct", 1, 5)), 2))
+			amt := x.MulInt(reserveOf(pool, denom)).TruncateInt()
+			if !amt.IsPositive() {
+				break
+			}
+			g.Busy[joiner.Addr.String()], g.Busy[h.W.Bot.Addr.String()] = true, true
+			h.Ext["c20-exec-planned"] = true
+			h.Labels["c20-move-then-execute-scenarios"]++
+			out = append(out,
+				&Op{Signer: joiner, Kind: "c20.move_market_join", Msg: &ammtypes.MsgJoinPool{Sender: joiner.Addr.String(), PoolId: pool.PoolId, MaxAmountsIn: sdk.NewCoins(sdk.NewCoin(denom, amt)), ShareAmountOut: sdkmath.OneInt()}},
+				&Op{Signer: h.W.Bot, Kind: "c20.execute_after_move", Msg: &tstypes.MsgExecuteOrders{Creator: h.W.Bot.Addr.String(), SpotOrderIds: []uint64{o.OrderId}}})
+			break
+		}
+	}
 	return out
 }
 
